@@ -59,6 +59,20 @@ impl Write for Scripted {
     }
 }
 
+/// the scripted writer behind `dyn Write + Send (+ Sync)`: the harness is single-threaded, the
+/// marker traits only select the trait-object impls of the crate under test
+pub struct ScriptedSend(pub Scripted);
+unsafe impl Send for ScriptedSend {}
+unsafe impl Sync for ScriptedSend {}
+impl Write for ScriptedSend {
+    fn write(&mut self, buf: &[u8]) -> std::io::Result<usize> {
+        self.0.write(buf)
+    }
+    fn flush(&mut self) -> std::io::Result<()> {
+        self.0.flush()
+    }
+}
+
 pub fn parse_script(s: &str) -> std::collections::VecDeque<Resp> {
     let mut out = std::collections::VecDeque::new();
     if s == "-" {
@@ -112,6 +126,11 @@ pub fn run_op(w: &mut dyn Write, op: &str) -> String {
         }
         "f" => {
             let frags: Vec<String> = rest.split('/').map(|h| String::from_utf8(unhex(h)).expect("utf8 fragment")).collect();
+            if frags.len() == 1 {
+                if let Some(r) = crate::lits::write_lit(w, &frags[0]) {
+                    return res_u(r);
+                }
+            }
             res_u(write!(w, "{}", Frags(frags)))
         }
         "F" => res_u(w.flush()),
@@ -140,6 +159,7 @@ pub fn strm(f: &[&str]) -> String {
             let inner = $inner;
             if mode == "strip" {
                 let mut s = anstream::StripStream::new(inner);
+                assert!(!s.is_terminal(), "StripStream::is_terminal over a writer that is no terminal");
                 for op in &ops {
                     results.push(run_op(&mut s, op));
                 }
@@ -161,6 +181,7 @@ pub fn strm(f: &[&str]) -> String {
                     anstream::AutoStream::new(inner, choice)
                 };
                 current = choice_name(s.current_choice()).to_owned();
+                assert!(!s.is_terminal(), "AutoStream::is_terminal over a writer that is no terminal");
                 for op in &ops {
                     results.push(run_op(&mut s, op));
                 }
@@ -179,8 +200,35 @@ pub fn strm(f: &[&str]) -> String {
                 history = "-".to_owned();
             }
         }
+        "send" => {
+            let inner: Box<dyn Write + Send> = Box::new(ScriptedSend(Scripted { script: parse_script(f[2]), log: log.clone() }));
+            drive!(inner, |_b: Box<dyn Write + Send>| ());
+            received = log.borrow().received.clone();
+            history = log.borrow().calls.join(";");
+            if history.is_empty() {
+                history = "-".to_owned();
+            }
+        }
+        "sync" => {
+            let inner: Box<dyn Write + Send + Sync> = Box::new(ScriptedSend(Scripted { script: parse_script(f[2]), log: log.clone() }));
+            drive!(inner, |_b: Box<dyn Write + Send + Sync>| ());
+            received = log.borrow().received.clone();
+            history = log.borrow().calls.join(";");
+            if history.is_empty() {
+                history = "-".to_owned();
+            }
+        }
         "vec" => {
             received = drive!(Vec::<u8>::new(), |b: Vec<u8>| b);
+        }
+        "buffer" => {
+            #[allow(deprecated)]
+            {
+                received = drive!(anstream::Buffer::new(), |b: anstream::Buffer| {
+                    assert_eq!(b.as_bytes(), AsRef::<[u8]>::as_ref(&b), "Buffer::as_bytes / AsRef");
+                    b.as_bytes().to_vec()
+                });
+            }
         }
         "file" => {
             let dir = std::env::var("VERIF_SCRATCH").unwrap_or_else(|_| std::env::temp_dir().to_string_lossy().into_owned());
@@ -341,6 +389,46 @@ pub fn tas(f: &[&str]) -> String {
     if s.is_empty() { "-".to_owned() } else { hex(s.as_bytes()) }
 }
 
+/// child mode `hcore --pm-child <out|err> <nl 0|1> <call,call,...>` (call = hex/hex/... fragments): one
+/// `anstream::print!` / `println!` / `eprint!` / `eprintln!` per call on the REAL stdout / stderr
+pub fn pm_child(args: &[String]) -> i32 {
+    let nl = args[1] == "1";
+    for call in args[2].split(',') {
+        let frags: Vec<String> = if call == "-" { vec![] } else { call.split('/').map(|h| String::from_utf8(unhex(h)).expect("utf8 fragment")).collect() };
+        let d = Frags(frags);
+        match (args[0].as_str(), nl) {
+            ("out", false) => anstream::print!("{}", d),
+            ("out", true) => anstream::println!("{}", d),
+            (_, false) => anstream::eprint!("{}", d),
+            (_, true) => anstream::eprintln!("{}", d),
+        }
+    }
+    0
+}
+
+/// `pm <out|err> <nl 0|1> <call,call,...> [<name>=<value>]...`: run the child above with exactly the given
+/// environment (names / values in hex) and both standard streams on pipes; answer what arrived on the stream
+pub fn pm(f: &[&str]) -> String {
+    use std::os::unix::ffi::OsStringExt;
+    let exe = std::env::current_exe().expect("current_exe");
+    let mut cmd = std::process::Command::new(exe);
+    cmd.arg("--pm-child").args(&f[..3]).env_clear().stdin(std::process::Stdio::null());
+    for b in &f[3..] {
+        let (n, v) = b.split_once('=').expect("name=value");
+        let un = |h: &str| if h == "-" { Vec::new() } else { unhex(h) };
+        cmd.env(std::ffi::OsString::from_vec(un(n)), std::ffi::OsString::from_vec(un(v)));
+    }
+    let out = cmd.output().expect("spawn child");
+    if !out.status.success() {
+        return format!("CHILD-FAILED {:?}", out.status.code());
+    }
+    let (got, other) = if f[0] == "out" { (out.stdout, out.stderr) } else { (out.stderr, out.stdout) };
+    if !other.is_empty() {
+        return format!("OTHER-STREAM {}", hex(&other));
+    }
+    if got.is_empty() { "-".to_owned() } else { hex(&got) }
+}
+
 pub fn dispatch(kind: &str, f: &[&str]) -> Option<String> {
     Some(match kind {
         "strm" => strm(f),
@@ -349,6 +437,7 @@ pub fn dispatch(kind: &str, f: &[&str]) -> Option<String> {
         "drvv" => drvv(f),
         "lk8" => lk8(f),
         "tas" => tas(f),
+        "pm" => pm(f),
         _ => return None,
     })
 }
